@@ -1439,3 +1439,319 @@ func ruleC39true(c *Ctx, r *Report) {
 		r.undecided(rule, "proxy/server", "more-rows-edge", "-", "no result-returning function branches on MoreRowsExist()")
 	}
 }
+
+func init() {
+	register("C11", "", ruleC11w)
+	register("C20", "", ruleC20c)
+	register("C03", "", ruleC03b)
+}
+
+// ruleC11w (MP-C11w): the writer cuts each frame where the previous one ended: in (*Conn).WritePacket the loop-carried
+// offset and remaining length satisfy d(index) + d(length) = 0 on every back edge, and exactly one increment of
+// c.sequence lies between a frame write and the next write or the success return.
+func ruleC11w(c *Ctx, r *Report) {
+	const rule = "MP-C11w"
+	r.floor(rule, 2)
+	fn := c.Method("mysql", "Conn", "WritePacket")
+	seqF := c.Field("mysql", "Conn", "sequence")
+	if fn == nil || seqF == nil || len(fn.Params) < 2 {
+		r.undecided(rule, "(*mysql.Conn).WritePacket", "anchor", "-", "not found")
+		return
+	}
+	name := c.FuncName(fn)
+	data := fn.Params[1]
+	p := c.newProver(fn, nil)
+	p.noWrap = true
+	// loop header phis: index (0 on entry), length (len(data) on entry)
+	var idxPhi, lenPhi *ssa.Phi
+	for _, b := range fn.Blocks {
+		for _, in := range b.Instrs {
+			ph, ok := in.(*ssa.Phi)
+			if !ok {
+				break
+			}
+			for i, pr := range b.Preds {
+				if b.Dominates(pr) {
+					continue
+				}
+				e := ph.Edges[i]
+				if isIntConst(e, 0) {
+					// the offset is the phi used as the low bound of a slice of data
+					if refs := ph.Referrers(); refs != nil {
+						for _, rr := range *refs {
+							if sl, ok := rr.(*ssa.Slice); ok && sl.X == ssa.Value(data) && sl.Low == ssa.Value(ph) {
+								idxPhi = ph
+							}
+						}
+					}
+				}
+				if call, ok := e.(*ssa.Call); ok {
+					if bi, ok := call.Call.Value.(*ssa.Builtin); ok && bi.Name() == "len" && call.Call.Args[0] == ssa.Value(data) {
+						lenPhi = ph
+					}
+				}
+			}
+		}
+	}
+	if idxPhi == nil || lenPhi == nil || idxPhi.Block() != lenPhi.Block() {
+		r.undecided(rule, name, "offset-and-remaining", c.Pos(fn.Pos()), "the frame loop's offset/remaining-length variables were not recognised")
+	} else {
+		h := idxPhi.Block()
+		nb := 0
+		for i, pr := range h.Preds {
+			if !h.Dominates(pr) {
+				continue
+			}
+			nb++
+			at := pr.Instrs[len(pr.Instrs)-1]
+			d := p.lin(idxPhi.Edges[i], at, 0).addScaled(p.lin(idxPhi, at, 0), -1).
+				addScaled(p.lin(lenPhi.Edges[i], at, 0), 1).addScaled(p.lin(lenPhi, at, 0), -1)
+			cons := fmt.Sprintf("back-edge#%d:offset+remaining-conserved", nb)
+			if d.isConst() && d.k.Sign() == 0 {
+				r.ok(rule, name, cons, c.Pos(at.Pos()), "the offset advances by exactly what the remaining length shrinks: the next frame starts where this one ended")
+			} else {
+				r.viol(rule, name, cons, c.Pos(at.Pos()), "on this way back to the loop head the offset does not advance by what was written ("+p.linString(d)+" != 0): continuation frames are cut from the wrong place")
+			}
+		}
+		if nb == 0 {
+			r.undecided(rule, name, "back-edge", c.Pos(fn.Pos()), "no back edge in the frame loop")
+		}
+	}
+	// sequence: exactly one increment between a write and the next write / success return
+	isWrite := func(in ssa.Instruction) bool {
+		cc := callCommon(in)
+		return cc != nil && cc.IsInvoke() && cc.Method.Name() == "Write"
+	}
+	isInc := func(in ssa.Instruction) bool {
+		st, ok := in.(*ssa.Store)
+		return ok && fieldOfAddr(st.Addr) == seqF
+	}
+	nw := 0
+	allInstrs(fn, func(in ssa.Instruction) {
+		if !isWrite(in) {
+			return
+		}
+		nw++
+		call := in.(*ssa.Call)
+		errEdges := map[[2]int]bool{}
+		for _, e := range errNilEdgesOfCall(call) {
+			if !e.Val {
+				errEdges[[2]int{e.If.Block().Index, e.Succ}] = true
+			}
+		}
+		min, max := 1<<30, -1
+		onPath := map[*ssa.BasicBlock]bool{}
+		var walk func(b *ssa.BasicBlock, from int, cnt int)
+		walk = func(b *ssa.BasicBlock, from int, cnt int) {
+			for i := from; i < len(b.Instrs); i++ {
+				x := b.Instrs[i]
+				if isInc(x) {
+					cnt++
+				}
+				end := false
+				if isWrite(x) {
+					end = true
+				}
+				if ret, ok := x.(*ssa.Return); ok {
+					if isNil, known := returnsNilError(ret); known && !isNil {
+						return // failure exits carry no obligation
+					}
+					end = true
+				}
+				if end {
+					if cnt < min {
+						min = cnt
+					}
+					if cnt > max {
+						max = cnt
+					}
+					return
+				}
+			}
+			for i, s := range b.Succs {
+				if errEdges[[2]int{b.Index, i}] || onPath[s] {
+					continue
+				}
+				onPath[s] = true
+				walk(s, 0, cnt)
+				onPath[s] = false
+			}
+		}
+		walk(in.Block(), instrIndex(in)+1, 0)
+		cons := fmt.Sprintf("write#%d:sequence-advanced-once", nw)
+		if min == 1 && max == 1 {
+			r.ok(rule, name, cons, c.Pos(in.Pos()), "exactly one increment of the sequence id between this frame and the next frame or the successful end")
+		} else if max < 0 {
+			r.ok(rule, name, cons, c.Pos(in.Pos()), "no successful continuation after this write")
+		} else {
+			r.viol(rule, name, cons, c.Pos(in.Pos()), fmt.Sprintf("the sequence id is advanced between %d and %d times after this frame (must be exactly once)", min, max))
+		}
+	})
+	if nw == 0 {
+		r.undecided(rule, name, "writes", c.Pos(fn.Pos()), "no frame write found")
+	}
+}
+
+// ruleC20c (MP-C20c): a backend connection's record of its session variables never shares Variable objects with a
+// client's set: in the methods of mysql.SessionVariables that take another *SessionVariables, nothing taken out of the
+// other set's maps is stored into the receiver's maps (a later SET by the client would silently change the connection's
+// belief without any SET being sent).
+func ruleC20c(c *Ctx, r *Report) {
+	const rule = "MP-C20c"
+	r.floor(rule, 1)
+	svT := c.NamedType("mysql", "SessionVariables")
+	if svT == nil {
+		r.undecided(rule, "mysql.SessionVariables", "anchor", "-", "not found")
+		return
+	}
+	n := 0
+	for _, fn := range c.Funcs {
+		if fn.Signature.Recv() == nil || namedOf(fn.Signature.Recv().Type()) != svT || len(fn.Params) < 2 {
+			continue
+		}
+		var other *ssa.Parameter
+		for _, prm := range fn.Params[1:] {
+			if namedOf(prm.Type()) == svT {
+				other = prm
+			}
+		}
+		if other == nil {
+			continue
+		}
+		recv := fn.Params[0]
+		rootParam := func(v ssa.Value) ssa.Value {
+			for i := 0; i < 10; i++ {
+				switch x := v.(type) {
+				case *ssa.UnOp:
+					v = x.X
+					continue
+				case *ssa.FieldAddr:
+					v = x.X
+					continue
+				case *ssa.Extract:
+					v = x.Tuple
+					continue
+				case *ssa.Next:
+					v = x.Iter
+					continue
+				case *ssa.Range:
+					v = x.X
+					continue
+				case *ssa.Lookup:
+					v = x.X
+					continue
+				case *ssa.Phi:
+					if len(x.Edges) > 0 {
+						v = x.Edges[0]
+						continue
+					}
+				}
+				break
+			}
+			return v
+		}
+		n++
+		name := c.FuncName(fn)
+		bad := false
+		allInstrs(fn, func(in ssa.Instruction) {
+			mu, ok := in.(*ssa.MapUpdate)
+			if !ok {
+				return
+			}
+			if rootParam(mu.Map) == ssa.Value(recv) && rootParam(mu.Value) == ssa.Value(other) {
+				bad = true
+				r.viol(rule, name, "stores-other-sets-object", c.Pos(mu.Pos()), "a Variable object taken from the other set is stored into this set: the two sets now share it, and a later change through one of them silently changes the other (the connection believes it already has the client's new value and sends no SET)")
+			}
+		})
+		if !bad {
+			r.ok(rule, name, "no-shared-variable-objects", c.Pos(fn.Pos()), "values are copied with Set(name, value); no Variable object of the other set is stored")
+		}
+	}
+	if n == 0 {
+		r.undecided(rule, "mysql.SessionVariables", "methods", "-", "no method takes another SessionVariables")
+	}
+}
+
+// ruleC03b (MP-C03b): an INSERT whose route was not narrowed to one table per rewritten statement is rejected: the
+// sharded (non-global) INSERT path generates its SQL through generateMultiShardingSQLs, whose success is dominated by
+// len(stmts) == len(result indexes) — the guard that rejects an INSERT ... SET whose sharding value was not evaluated.
+func ruleC03b(c *Ctx, r *Report) {
+	const rule = "MP-C03b"
+	r.floor(rule, 2)
+	multi := c.Func("proxy/plan", "generateMultiShardingSQLs")
+	global := c.Func("proxy/plan", "generateGlobalShardingSQLs")
+	his := c.Func("proxy/plan", "HandleInsertStmt")
+	if multi == nil || his == nil || global == nil {
+		r.undecided(rule, "proxy/plan", "anchor", "-", "anchors not found")
+		return
+	}
+	// (1) guard inside generateMultiShardingSQLs
+	mn := c.FuncName(multi)
+	var eqEdges []CondEdge
+	allInstrs(multi, func(in ssa.Instruction) {
+		b, ok := in.(*ssa.BinOp)
+		if !ok || (b.Op != token.NEQ && b.Op != token.EQL) {
+			return
+		}
+		isLen := func(v ssa.Value) bool {
+			call, ok := v.(*ssa.Call)
+			if !ok {
+				return false
+			}
+			bi, ok := call.Call.Value.(*ssa.Builtin)
+			return ok && bi.Name() == "len"
+		}
+		if !isLen(b.X) || !isLen(b.Y) {
+			return
+		}
+		for _, e := range condEdges(b) {
+			eq := e.Val
+			if b.Op == token.NEQ {
+				eq = !e.Val
+			}
+			if eq {
+				eqEdges = append(eqEdges, e)
+			}
+		}
+	})
+	k := 0
+	for _, ret := range returnsOf(multi) {
+		isNil, known := returnsNilError(ret)
+		if known && !isNil {
+			continue
+		}
+		k++
+		cons := fmt.Sprintf("success#%d:stmts-match-route", k)
+		if edgesDominate(multi, eqEdges, ret.Block()) {
+			r.ok(rule, mn, cons, c.Pos(exitPos(ret)), "dominated by len(stmts) == len(route indexes)")
+		} else {
+			r.viol(rule, mn, cons, c.Pos(exitPos(ret)), "SQL is generated although the number of rewritten statements differs from the number of routed tables")
+		}
+	}
+	// (2) HandleInsertStmt: every success return is dominated by the success of one of the two generators
+	hn := c.FuncName(his)
+	var okEdges []CondEdge
+	for _, ci := range callsIn(his, func(cc *ssa.CallCommon) bool { return callsFunc(cc, multi) || callsFunc(cc, global) }) {
+		if call, ok := ci.(*ssa.Call); ok {
+			for _, e := range errNilEdgesOfCall(call) {
+				if e.Val {
+					okEdges = append(okEdges, e)
+				}
+			}
+		}
+	}
+	j := 0
+	for _, ret := range returnsOf(his) {
+		isNil, known := returnsNilError(ret)
+		if known && !isNil {
+			continue
+		}
+		j++
+		cons := fmt.Sprintf("success#%d:generated-by-guarded-generator", j)
+		if edgesDominate(his, okEdges, ret.Block()) {
+			r.ok(rule, hn, cons, c.Pos(exitPos(ret)), "the INSERT's SQL comes from generateMultiShardingSQLs (or the global-table generator)")
+		} else {
+			r.viol(rule, hn, cons, c.Pos(exitPos(ret)), "an INSERT can be planned without the generator that rejects an un-narrowed route: a row whose sharding value was not evaluated is written to every table (or to none)")
+		}
+	}
+}
